@@ -71,14 +71,68 @@ func c10Setup(c *mon.Ctx) error {
 		r.SetConfiguration(mustConfig(cfgs[len(c10Regs)%3].Text))
 		c10Regs = append(c10Regs, regCfg{r, "filter{" + describeFilter(o) + "}"})
 	}
+	return nil // no lint has run yet in this process: baselines are computed AFTER the cold-start phase
+}
+
+var c10ColdOnce sync.Once
+
+// c10Cold is the first linting this process ever does: G goroutines lint every seed (each its own parse, in a
+// worker-specific order) against the shared registries at once, so that lazily initialised state (caches filled
+// on first use, sync.Once, memo tables) is first touched concurrently. A sequential warm-up would hide exactly
+// the races that only exist on first use. Sequential baselines are computed afterwards and compared.
+func c10Cold(c *mon.Ctx) {
+	G := []int{8, 32, 4, 64}[c.Shard%4]
+	runtime.GOMAXPROCS([]int{16, 16, 4, 8}[c.Shard%4])
+	order := c.Rng(-77, c.Shard).Perm(len(W.Objs))
+	type got struct {
+		ri int
+		s  mon.Snap
+	}
+	res := make([]got, len(W.Objs))
+	var next atomic.Int64
+	var wg sync.WaitGroup
+	for gi := 0; gi < G; gi++ {
+		wg.Add(1)
+		go func(gi int) {
+			defer wg.Done()
+			defer c10Recover(c, "cold")
+			for {
+				k := int(next.Add(1)) - 1
+				if k >= len(order) {
+					return
+				}
+				idx := order[k]
+				own := W.Objs[idx].Reparse()
+				if own == nil {
+					continue
+				}
+				ri := 0
+				if k%4 == 3 {
+					ri = 2 + k%(len(c10Regs)-2)
+				}
+				rs, pv, stack := own.Lint(c10Regs[ri].reg)
+				c.R.Count("evaluations", 1)
+				c.R.Count("cold_concurrent_lint_calls", 1)
+				if pv != nil || rs == nil {
+					c.V("panic-under-concurrency|cold", fmt.Sprintf("Lint*Ex panicked during the cold-start phase (%d goroutines): %v at %s", G, pv, mon.PanicSite(stack)), "", inputs(W.Objs[idx]), map[string]any{"stack": stack})
+					continue
+				}
+				res[idx] = got{ri, mon.SnapOf(rs)}
+				c.Tick()
+			}
+		}(gi)
+	}
+	wg.Wait()
+	// now the sequential baselines
+	day := today()
 	stride := c.Pick(5, 1)
 	for i, o := range W.Objs {
 		sub := !(o.Kind == corpus.Cert && i%stride != int(uint64(c.Seed)%uint64(stride)))
 		co := &c10Obj{o: o, base: map[int]mon.Snap{}}
 		c10All = append(c10All, co)
 		for ri, rc := range c10Regs {
-			if !sub && ri > 0 {
-				break
+			if !sub && ri > 0 && ri != res[i].ri {
+				continue
 			}
 			rs, pv, _ := o.Lint(rc.reg)
 			if pv != nil || rs == nil {
@@ -89,9 +143,17 @@ func c10Setup(c *mon.Ctx) error {
 		if sub {
 			c10Objs = append(c10Objs, co)
 		}
+		if res[i].s != nil {
+			if base, ok := co.base[res[i].ri]; ok {
+				for _, d := range dropClock(day, mon.Diff(base, res[i].s, false, false)) {
+					name := strings.SplitN(d, ":", 2)[0]
+					c.V("concurrent-differs|cold|"+name, fmt.Sprintf("lint %s: the call made concurrently at process start differs from the same call made alone afterwards (G=%d): %s", name, G, clipS(d, 240)), name, inputs(o), nil)
+				}
+			}
+		}
 		c.Tick()
 	}
-	return nil
+	c.R.Distinct("cold_configs", fmt.Sprintf("shard=%d,G=%d", c.Shard, G))
 }
 
 // w1: G linters over shared registries + registry readers.
@@ -394,24 +456,22 @@ func init() {
 		ID:               "C10",
 		CrashIsViolation: true,
 		StallSecs:        300,
-		Procs:            func(c *mon.Ctx) int { return 1 },
-		Rule:             "built with the Go race detector (GORACE=halt_on_error=0 log_path=...; reports counted and de-duplicated by the innermost zlint frame pair, exit code not trusted). W1: G in {2,8,32,128} goroutines lint their own parse of each object against shared registries (global, nil, filtered+configured) while 4 reader goroutines hammer Names/Sources/ByName/BySource/Lints/Filter/WriteJSON/DefaultConfiguration, at GOMAXPROCS in {1,2,4,16}; every result is compared with the sequential baseline. W2: for every lint, 16 goroutines released by a barrier execute that same lint on their own certificates (per-lint overlap measured with in-flight counters; a lint counts as overlapped with >= 10 overlapping executions). W3: concurrent Filter + lint on the fresh registries. evaluations = concurrent lint executions; distinct_nontrivial = lints that were observed overlapping themselves.",
+		Procs:            func(c *mon.Ctx) int { return 4 },
+		Rule:             "built with the Go race detector (GORACE=halt_on_error=0 log_path=...; reports counted and de-duplicated by the innermost zlint frame pair, exit code not trusted). W0 (cold start, in each of 4 worker processes, before any other linting): G in {8,32,4,64} goroutines lint every seed concurrently in a worker-specific order, so lazily initialised state is first touched concurrently; baselines are computed afterwards and compared. W1: G in {2,8,32,128} goroutines lint their own parse of each object against shared registries (global, nil, filtered+configured) while 4 reader goroutines hammer Names/Sources/ByName/BySource/Lints/Filter/WriteJSON/DefaultConfiguration, at GOMAXPROCS in {1,2,4,16}; every result is compared with the sequential baseline. W2: for every lint, 16 goroutines released by a barrier execute that same lint on their own certificates (per-lint overlap measured with in-flight counters; a lint counts as overlapped with >= 10 overlapping executions). W3: concurrent Filter + lint on the fresh registries. evaluations = concurrent lint executions; distinct_nontrivial = lints that were observed overlapping themselves.",
 		Assumptions:      []string{"the race detector sees only executed code", "SetConfiguration concurrent with linting is a write the property does not include and is not exercised"},
 		Setup:            c10Setup,
 		WorkerEnv: func(c *mon.Ctx, work string) []string {
-			return []string{"GORACE=halt_on_error=0 exitcode=0 log_path=" + filepath.Join(work, "race.log"), "GOMAXPROCS=16"}
+			return []string{"GORACE=halt_on_error=0 exitcode=0 log_path=" + filepath.Join(work, "race.log"), "GOMAXPROCS=8"}
 		},
-		Cases: func(c *mon.Ctx) int { return c.Pick(4, 18) },
+		Cases: func(c *mon.Ctx) int { return c.Pick(4, 20) },
 		RunCase: func(c *mon.Ctx, i int) {
+			c10ColdOnce.Do(func() { c10Canary(); c10Cold(c) })
 			type w1 struct{ g, p int }
 			quick := []w1{{8, 2}, {32, 16}}
 			full := []w1{{2, 1}, {8, 1}, {2, 2}, {8, 2}, {32, 2}, {8, 4}, {32, 4}, {128, 4}, {8, 16}, {32, 16}, {128, 16}, {128, 2}}
 			plan := quick
 			if c.Thorough() {
 				plan = full
-			}
-			if i == 0 {
-				c10Canary()
 			}
 			switch {
 			case i < len(plan):
@@ -452,6 +512,10 @@ func init() {
 			ev.Coverage["race_detector_enabled"] = raceEnabled
 			if !raceEnabled {
 				gates = append(gates, "the harness was not built with -race")
+			}
+			ev.Coverage["cold_start_configurations"] = r.SetKeys("cold_configs")
+			if r.Counters["cold_concurrent_lint_calls"] < 1000 {
+				gates = append(gates, "cold-start phase observed too little")
 			}
 			if r.Counters["concurrent_lint_calls"] < 500 || r.Counters["registry_reads"] < 100 {
 				gates = append(gates, "W1 observed too little")
